@@ -1,3 +1,15 @@
--- This module serves as the root of the `EvyV` library.
--- Import modules here that should be built as part of the library.
-import EvyV.Basic
+-- Root of the `EvyV` library: the property theorem files (which import the models, specs,
+-- lemmas and the regenerated facts under EvyV/Gen).
+import EvyV.Props.C01
+import EvyV.Props.C02
+import EvyV.Props.C09
+import EvyV.Props.C10
+import EvyV.Props.C11
+import EvyV.Props.C12
+import EvyV.Props.C13
+import EvyV.Props.C14
+import EvyV.Props.C15
+import EvyV.Props.C16
+import EvyV.Props.C17
+import EvyV.Props.C17Sym
+import EvyV.Props.C20
